@@ -22,13 +22,17 @@ import (
 // ---------------------------------------------------------------- end-to-end stream
 
 type E2EOp struct {
-	K  string  `json:"k"` // batch | batchserve | serve | sync | drop | read
-	Ts []int64 `json:"ts,omitempty"`
+	K string `json:"k"` // batch | batchserve | serve | sync | drop | read | cread | selopen | selagain
+	// cread: a read through the cached cursor number Cur (created by its first cread, continued by the later ones: one
+	// JIterator and one chkSelector live across the reads). selopen: a chkSelector for [O1,O2] is created and kept;
+	// selopen and selagain ask it for the status of every chunk.
+	Cur int     `json:"cur,omitempty"`
+	Ts  []int64 `json:"ts,omitempty"`
 	// drop: the restarted server flushes chunk writers after a minute instead of 5 ms, and the harness flushes them itself
 	// (chunk.Sync) after every write: what batchserve needs to serve the rebuilder while a batch is still unflushed
-	Slow bool `json:"slow,omitempty"`
-	O1 *int64  `json:"o1,omitempty"`
-	O2 *int64  `json:"o2,omitempty"`
+	Slow bool   `json:"slow,omitempty"`
+	O1   *int64 `json:"o1,omitempty"`
+	O2   *int64 `json:"o2,omitempty"`
 	// read: write the range as a single bound without brackets is not used; both bounds optional
 }
 type E2ECase struct {
@@ -108,8 +112,11 @@ func genQueries(r *Rng, all []int64, n int, stream string) []E2EOp {
 }
 
 func genE2E(r *Rng, i int) *E2ECase {
-	streams := []string{"mono", "mono", "mono", "spiky", "zero", "jitter", "extreme", "dropwrite"}
+	streams := []string{"mono", "mono", "cursor", "spiky", "zero", "jitter", "extreme", "dropwrite"}
 	ec := &E2ECase{Stream: streams[i%len(streams)]}
+	if ec.Stream == "cursor" {
+		return genE2ECursor(r)
+	}
 	ec.ChunkRecs = r.PickInt(0, 0, 700, 400, 260, 251, 250, 249, 120)
 	if ec.Stream == "spiky" {
 		// few, long chunks: the index rebuild scans a chunk in 250-record segments
@@ -246,6 +253,52 @@ func genE2E(r *Rng, i int) *E2ECase {
 	return ec
 }
 
+// genE2ECursor: a partition stored in time order that is being written while ONE chkSelector (selopen/selagain) and
+// cached cursors (cread) live across the writes; nothing but write batches and reads happens, so the continued
+// selector must answer like a fresh one and the continued cursor must have delivered, at every read, exactly the
+// in-range events. Cursor 1 and the kept selector look at a range AHEAD of the data written so far (every chunk is
+// out of the range when they first see it and grows into it); cursor 2 at a range that cuts the stored data.
+func genE2ECursor(r *Rng) *E2ECase {
+	ec := &E2ECase{Stream: "cursor"}
+	ec.ChunkRecs = r.PickInt(0, 0, 0, 700, 400, 251)
+	cur := int64(r.Range(1, 100000))
+	total := r.PickInt(300, 520, 760, 1100)
+	var all []int64
+	batch := func(n int) {
+		tss := tsProcess(r, "mono", n, &cur)
+		ec.Ops = append(ec.Ops, E2EOp{K: "batch", Ts: tss})
+		all = append(all, tss...)
+	}
+	batch(r.PickInt(1, 10, 100, 250, 251))
+	a1 := cur + int64(r.PickInt(1, 5, 50, 200, 600))
+	b1 := a1 + int64(r.PickInt(0, 1, 50, 400, 1500))
+	ec.Ops = append(ec.Ops, E2EOp{K: "selopen", O1: i64p(a1), O2: i64p(b1)}, E2EOp{K: "cread", Cur: 1, O1: i64p(a1), O2: i64p(b1)})
+	second := false
+	for len(all) < total {
+		batch(r.PickInt(1, 10, 10, 100, 249, 250, 251))
+		if !second && len(all) > total/3 {
+			second = true
+			a2 := all[r.Intn(len(all))]
+			b2 := a2 + int64(r.PickInt(0, 10, 300, 100000))
+			ec.Ops = append(ec.Ops, E2EOp{K: "cread", Cur: 2, O1: i64p(a2), O2: i64p(b2)})
+		}
+		x := r.Intn(100)
+		switch {
+		case x < 30:
+			ec.Ops = append(ec.Ops, E2EOp{K: "selagain"})
+		case x < 60:
+			ec.Ops = append(ec.Ops, E2EOp{K: "cread", Cur: r.PickInt(1, 1, 2)})
+		case x < 70:
+			ec.Ops = append(ec.Ops, E2EOp{K: "read", O1: i64p(a1), O2: i64p(b1)})
+		case x < 78:
+			ec.Ops = append(ec.Ops, genQueries(r, all, 1, ec.Stream)...)
+		}
+	}
+	ec.Ops = append(ec.Ops, E2EOp{K: "selagain"}, E2EOp{K: "cread", Cur: 1}, E2EOp{K: "cread", Cur: 2}, E2EOp{K: "read", O1: i64p(a1), O2: i64p(b1)})
+	ec.Ops = append(ec.Ops, genQueries(r, all, r.Range(3, 6), ec.Stream)...)
+	return ec
+}
+
 // spikeQueries: ranges one of whose bounds lies between the timestamp of an out-of-order event and the timestamps
 // of its neighbours in stored order
 func spikeQueries(r *Rng, all []int64, n int) []E2EOp {
@@ -355,6 +408,23 @@ func corpus() []Replay {
 		{K: "batch", Ts: rep(100, 300)}, {K: "drop", Slow: true}, {K: "batchserve", Ts: rep(200, 10)},
 		{K: "read", O1: i64p(200), O2: i64p(200)}, {K: "read", O1: i64p(150), O2: i64p(250)}, {K: "read", O1: i64p(100), O2: i64p(150)},
 		{K: "batch", Ts: rep(300, 5)}, {K: "read", O1: i64p(200), O2: i64p(300)}}}})
+	// (j) a selector that lives across reads (a cached RANGE cursor that is continued): events ts 1..10, a kept selector
+	// and a cached cursor for RANGE ["100":"200"] see the chunk while it is wholly older than the range (window
+	// [MaxUint32..MaxUint32]); then ts 50..150 and 151..300 are appended to the SAME chunk: the window must be recomputed,
+	// the continued cursor must deliver the 101 events ts 100..200 (props/C02.v C02_continued_selector).
+	{
+		seq := func(a, b int64) []int64 {
+			var o []int64
+			for t := a; t <= b; t++ {
+				o = append(o, t)
+			}
+			return o
+		}
+		out = append(out, Replay{Kind: "e2e", E2E: &E2ECase{Stream: "cursor", Ops: []E2EOp{
+			{K: "batch", Ts: seq(1, 10)}, {K: "selopen", O1: i64p(100), O2: i64p(200)}, {K: "cread", Cur: 1, O1: i64p(100), O2: i64p(200)},
+			{K: "batch", Ts: seq(50, 150)}, {K: "selagain"}, {K: "batch", Ts: seq(151, 300)}, {K: "selagain"}, {K: "cread", Cur: 1},
+			{K: "read", O1: i64p(100), O2: i64p(200)}, {K: "batch", Ts: seq(300, 310)}, {K: "selagain"}, {K: "cread", Cur: 1}}}})
+	}
 	return out
 }
 
@@ -368,6 +438,16 @@ type e2eRun struct {
 	all   []int64    // timestamps in stored order
 	total int
 	slow  bool // the chunk writers flush on chunk.Sync only (see E2EOp.Slow)
+	sel   *partition.VC02Selector
+	curs  map[int]*e2eCursor
+}
+
+// e2eCursor is a cached cursor of the server that the harness continues: the request for the next page and what
+// it has delivered so far
+type e2eCursor struct {
+	req    api.QueryRequest
+	o1, o2 *int64
+	got    map[int]bool
 }
 
 func (e *e2eRun) start(chunkRecs int) error {
@@ -764,6 +844,7 @@ func runE2E(rp Replay) (*Case, error) {
 				return nil, err
 			}
 			e.slow = op.Slow
+			e.sel, e.curs = nil, nil
 			if err := e.start(ec.ChunkRecs); err != nil {
 				return nil, fmt.Errorf("restart: %v", err)
 			}
@@ -1018,6 +1099,102 @@ func runE2E(rp Replay) (*Case, error) {
 			}
 			gEvents = GList(runs)
 			gop = GApp("ERead", optZ(o1), optZ(o2))
+		case "selopen", "selagain":
+			if e.src == "" || (op.K == "selagain" && e.sel == nil) || (op.K == "selopen" && (op.O1 == nil || op.O2 == nil)) {
+				continue
+			}
+			if op.K == "selopen" {
+				j, err := e.journal()
+				if err != nil {
+					return nil, err
+				}
+				e.sel = partition.VC02NewSelector(model.TimeRange{MinTs: *op.O1, MaxTs: *op.O2}, j, e.srv.Partitions.TsIndexer, e.srv.Partitions.GetTmIndexRebuilder())
+				gop = GApp("ESelOpen", GZ(*op.O1), GZ(*op.O2))
+			} else {
+				gop = "ESelAgain"
+			}
+			ws, err := e.sel.Windows(e.ctx)
+			if err != nil {
+				return nil, err
+			}
+			var gw []string
+			for _, w := range ws {
+				gw = append(gw, GTuple(GZ(int64(w.MinPos)), GZ(int64(w.MaxPos)), GZ(int64(w.Count))))
+			}
+			gWindows = GSome(GList(gw))
+			syncedSinceDrop = true
+			tags = append(tags, "e2e-kept-selector")
+		case "cread":
+			if e.src == "" || op.Cur <= 0 {
+				continue
+			}
+			if e.curs == nil {
+				e.curs = map[int]*e2eCursor{}
+			}
+			cu := e.curs[op.Cur]
+			if cu == nil {
+				if op.O1 == nil || op.O2 == nil {
+					continue
+				}
+				// Limit above the server's page maximum makes the Querier keep the cursor in its cache without waiting
+				cu = &e2eCursor{o1: op.O1, o2: op.O2, got: map[int]bool{}}
+				cu.req = api.QueryRequest{ReqId: uint64(7000 + op.Cur), Limit: 20000,
+					Query: fmt.Sprintf(`SELECT FROM %s RANGE ["%d":"%d"]`, e2eTags, *op.O1, *op.O2)}
+				e.curs[op.Cur] = cu
+			}
+			res, err := e.srv.Querier.Query(e.ctx, &cu.req)
+			if res == nil {
+				return nil, fmt.Errorf("continued query %v failed: %v", cu.req, err)
+			}
+			syncedSinceDrop = true
+			unsound := ""
+			for _, le := range res.Events {
+				sq, err := seqOf(le.Message)
+				if err != nil {
+					return nil, fmt.Errorf("unexpected message %q", le.Message)
+				}
+				if cu.got[sq] {
+					unsound = fmt.Sprintf("event seq %d delivered twice", sq)
+				}
+				if le.Timestamp < *cu.o1 || le.Timestamp > *cu.o2 {
+					unsound = fmt.Sprintf("event seq %d ts %d is out of the range", sq, le.Timestamp)
+				}
+				cu.got[sq] = true
+			}
+			cu.req = res.NextQueryRequest
+			cu.req.Limit = 20000
+			tags = append(tags, "e2e-continued-cursor")
+			if unsound != "" {
+				fail("range-continued-cursor-unsound", fmt.Sprintf("%s continued: %s", cu.req.Query, unsound))
+			}
+			// oracle: everything the continued cursor has delivered so far = the unbounded read filtered by the range
+			// (on a partition stored in time order and outside the window of the recorded finding (f), where a fresh RANGE
+			// read is complete)
+			if sortedAll && !pendingDropWrite {
+				full, err := e.query("SELECT FROM " + e2eTags)
+				if err != nil {
+					return nil, err
+				}
+				nwant, lost := 0, -1
+				var lostTs int64
+				for _, ev := range full {
+					if ev.ts >= *cu.o1 && ev.ts <= *cu.o2 {
+						nwant++
+						if !cu.got[ev.seq] && lost < 0 {
+							lost, lostTs = ev.seq, ev.ts
+						}
+					}
+				}
+				if lost >= 0 {
+					fresh, err := e.query(cu.req.Query)
+					if err != nil {
+						return nil, err
+					}
+					fail("range-continued-cursor-incomplete", fmt.Sprintf("%s through a continued cursor (ReqId %d) has delivered %d of %d in-range events so far, first lost: seq %d ts %d; the same query on a new cursor returns %d (%d events in %d chunks)",
+						cu.req.Query, cu.req.ReqId, len(cu.got), nwant, lost, lostTs, len(fresh), e.total, len(e.cids)))
+				}
+			}
+			gop = GApp("ECRead", optZ(cu.o1), optZ(cu.o2))
 		default:
 			return nil, fmt.Errorf("e2e: unknown op %q", op.K)
 		}
